@@ -44,6 +44,16 @@ def run(rep, tier):
     for cp in f4["bad"][:3]:
         e = f"AnyFrom(chr({cp}))"
         rep.violation(f"F4: {e} is not the literal U+{cp:04X}", {"code_point": cp}, {"kind": "expr", "expr": e}, witness=e)
+    # F5: the parametrised constructors over every pair of ASCII characters / end points (complete for ASCII arguments)
+    f5 = native("run_module", {"module": "pvc.bex_classes", "func": "ascii_pairs"}, timeout=1800)
+    rep.ob(f"F5: AnyBetween / AnyButBetween / AnyFrom / AnyButFrom for every pair of ASCII characters ({f5['evaluations']} constructor calls)",
+           "discharged" if not f5["n_failures"] else "failed", "cpython-exhaustive", 0, kind="finite")
+    rep.finite.append({"what": "the four parametrised constructors over every (ordered) pair of ASCII characters: requested set or documented "
+                               "exception; membership over all code points below U+0250 and the distinguished ones",
+                       "evaluations": f5["evaluations"], "distinct_nontrivial": f5["evaluations"], "exhaustive": True,
+                       "rule": "constructor calls"})
+    for f in f5["failures"][:5]:
+        rep.violation("F5: " + str(f.get("expr", f))[:80], f, {"kind": "expr", "expr": f.get("expr", "")}, witness=str(f.get("expr", "")))
     rep.trusted += ["R7 bracket expressions", "specs/charsets.py (documented sets / Unicode blocks)"]
     rep.assumptions += ["code points that only the Unicode-aware shorthands \\d \\s \\w add are left unspecified (masked)",
                         "'for any characters at all' is sampled by the distinguished characters and their neighbours (bounded)"]
